@@ -221,7 +221,7 @@ def main(argv):
     closure += enumerate_closure([0], 8 if quick else 10)          # one thread, own CPU
     closure += enumerate_closure([-1], 5 if quick else 8)         # one thread on the virtual CPU
     closure += enumerate_closure([0, 1], 4 if quick else 5)       # two threads, two CPUs
-    closure += enumerate_closure([0, 0], 3 if quick else 4)       # two threads sharing one physical CPU
+    closure += enumerate_closure([0, 0], 4 if quick else 5)       # two threads sharing one physical CPU (x p | x | r needs 4)
     closure += enumerate_closure([-1, -1], 3 if quick else 4)     # two threads sharing the virtual CPU
     nrandom = 150 if quick else 4000
     runs = accepted = rejected = lines = 0
